@@ -399,6 +399,71 @@ func TestC17(t *testing.T) {
 	})
 	rec.Exhaustive("type-names")
 
+	// (c') the type registry is exported (datatype.Available, datatype.Decoder): a type name
+	// an application registers while it is running - this process has decoded thousands of
+	// AVPs by now - is a name a dictionary may declare from then on, and AVPs of that type
+	// are encoded and decoded like those of any other.
+	rec.Suite("type-registered-at-run-time", 3, func(c *ev.Case) {
+		name := fmt.Sprintf("VerifReversed%d", c.I)
+		id := datatype.TypeID(1000 + c.I*977)
+		c.Class("type-registered-at-run-time/%d", c.I)
+		datatype.Available[name] = id
+		datatype.Decoder[id] = func(b []byte) (datatype.Type, error) {
+			out := make([]byte, len(b))
+			for i := range b {
+				out[len(b)-1-i] = b[i]
+			}
+			return c17Reversed{id, out}, nil
+		}
+		defer func() {
+			delete(datatype.Available, name)
+			delete(datatype.Decoder, id)
+		}()
+		xmlDoc := fmt.Sprintf(`<?xml version="1.0" encoding="UTF-8"?><diameter><application id="0" name="B">
+<command code="300" short="TT" name="Type-Test"><request><rule avp="T-AVP" required="false"/></request><answer><rule avp="T-AVP" required="false"/></answer></command>
+<avp name="T-AVP" code="5000" must="M"><data type="%s"/></avp><avp name="T-Oct" code="5001" must="M"><data type="OctetString"/></avp></application></diameter>`, name)
+		p, err := dict.NewParser()
+		if err == nil {
+			err = p.Load(strings.NewReader(xmlDoc))
+		}
+		sig := ev.Sig{"op": "type-registered-at-run-time"}
+		if err != nil {
+			c.Fail(sig, nil, nil, "dict.Load rejects a dictionary declaring the registered type %s: %v", name, err)
+			return
+		}
+		for rep := 0; rep < 20; rep++ {
+			val := randASCII(c.R, 1+c.R.IntN(9))
+			m := diam.NewRequest(300, 0, p)
+			var wire []byte
+			var rm *diam.Message
+			if pn, bad := guard(func() {
+				// an ordinary AVP first: decoding goes on as before
+				if _, err = m.NewAVP(5001, 0x40, 0, datatype.OctetString("x")); err != nil {
+					return
+				}
+				if _, err = m.NewAVP(5000, 0x40, 0, c17Reversed{id, val}); err != nil {
+					return
+				}
+				if wire, err = m.Serialize(); err == nil {
+					rm, err = diam.ReadMessage(bytes.NewReader(wire), p)
+				}
+			}); bad || err != nil {
+				c.Fail(sig, wire, nil, "an AVP of type %s (registered in datatype.Available and datatype.Decoder after the process had decoded other traffic, accepted by dict.Load) cannot be encoded and decoded: err=%v %s", name, err, pn)
+				return
+			}
+			got, ok := rm.AVP[len(rm.AVP)-1].Data.(c17Reversed)
+			want := make([]byte, len(val))
+			for i := range val {
+				want[len(val)-1-i] = val[i]
+			}
+			if !ok || len(rm.AVP) != 2 || !bytes.Equal(got.b, want) {
+				c.Fail(sig, wire, nil, "an AVP of the registered type %s was not decoded with the registered decoder: got %T %v", name, rm.AVP[len(rm.AVP)-1].Data, rm.AVP[len(rm.AVP)-1].Data)
+				return
+			}
+		}
+		c.Event("type_roundtrips", 20)
+	})
+
 	// (d) exported constants vs the embedded dictionaries
 	rec.Suite("constants", 1, func(c *ev.Case) { constantsTable(c, ctxs[0]) })
 }
@@ -822,3 +887,16 @@ func TestC17Concurrent(t *testing.T) {
 		c.Event("lookups", int(total.Load()))
 	})
 }
+
+// c17Reversed is a data type an application might add: opaque bytes that its
+// decoder hands over in reverse order (so that the decoder used is visible).
+type c17Reversed struct {
+	id datatype.TypeID
+	b  []byte
+}
+
+func (v c17Reversed) Serialize() []byte     { return v.b }
+func (v c17Reversed) Len() int              { return len(v.b) }
+func (v c17Reversed) Padding() int          { return (4 - len(v.b)%4) % 4 }
+func (v c17Reversed) Type() datatype.TypeID { return v.id }
+func (v c17Reversed) String() string        { return fmt.Sprintf("Reversed{%x}", v.b) }
